@@ -75,7 +75,7 @@ class QuadProblem(Problem):
     constant derivatives) | memo (one object per evaluation point) | refill (one object per callback, overwritten
     with the new values on every call)."""
 
-    def __init__(self, spec, fmt="coo", policy="fresh", explicit_zeros=False, record=None, dup=False):
+    def __init__(self, spec, fmt="coo", policy="fresh", explicit_zeros=False, record=None, dup=False, omit_zero_bounds=False):
         self.spec = spec
         self.P = np.array(spec.P, dtype=float).reshape(spec.n, spec.n)
         self.q = np.array(spec.q, dtype=float)
@@ -92,8 +92,13 @@ class QuadProblem(Problem):
         lb = np.array(spec.lb, dtype=float)
         ub = np.array(spec.ub, dtype=float)
         if spec.m > 0:
-            super().__init__(lb, ub, cons_lb=np.array(spec.cl, dtype=float),
-                             cons_ub=np.array(spec.cu, dtype=float))
+            cl, cu = np.array(spec.cl, dtype=float), np.array(spec.cu, dtype=float)
+            if omit_zero_bounds and np.all(cu == 0.0):
+                super().__init__(lb, ub, cons_lb=cl)          # documented: a missing side defaults to zeros
+            elif omit_zero_bounds and np.all(cl == 0.0):
+                super().__init__(lb, ub, cons_ub=cu)
+            else:
+                super().__init__(lb, ub, cons_lb=cl, cons_ub=cu)
         else:
             super().__init__(lb, ub)
 
